@@ -6,9 +6,39 @@ from grad import weights, finish, SAFE_UN
 
 EPS = 1e-12
 
-def upstream(p, rng, x, depth):
+def identity_step(p, rng, x, shape):
+    """an operation that changes neither shape nor values: a result that must nevertheless be a NEW tensor with its own
+    gradient state (same-shape Reshape / Broadcast, Flatten from the last dimension, whole-range Slice, UnSqueeze + Squeeze,
+    a one-element Concat, Scale by 1, Pow 1)"""
+    r = len(shape)
+    how = rng.choice(['reshape', 'reshape', 'flatten-last', 'broadcast', 'slice-all', 'unsq-sq', 'concat1', 'scale1', 'pow1']
+                     if r >= 1 else ['reshape', 'broadcast', 'scale1', 'pow1'])
+    p.tag('identity-step', 'identity:' + how)
+    if how == 'reshape':
+        return p.bind('reshape %s %s' % (x, ints(shape)))
+    if how == 'flatten-last':
+        return p.bind('flatten %s %d' % (x, r - 1))
+    if how == 'broadcast':
+        return p.bind('broadcast %s %s' % (x, ints(shape)))
+    if how == 'slice-all':
+        k = rng.randint(0, r)
+        return p.bind('slice %s %s' % (x, ranges([(0, shape[d]) if rng.random() < 0.6 else (0, 0) for d in range(k)]) if k else 'slice %s -' % x)
+                      if k else 'slice %s -' % x)
+    if how == 'unsq-sq':
+        d = rng.randint(0, r)
+        return p.bind('squeeze %s %d' % (p.bind('unsqueeze %s %d' % (x, d)), d))
+    if how == 'concat1':
+        return p.bind('concat %s %d' % (x, rng.randrange(r)))
+    if how == 'scale1':
+        return p.bind('scale %s %s' % (x, f2b(1.0)))
+    return p.bind('pow %s %s' % (x, f2b(1.0)))
+
+def upstream(p, rng, x, depth, shape=None):
     """feed x through 0..depth tracked operations that keep the shape; returns the new tensor"""
     for _ in range(depth):
+        if shape is not None and rng.random() < 0.3:
+            x = identity_step(p, rng, x, shape)
+            continue
         k = rng.random()
         if k < 0.4:
             x = p.bind('scale %s %s' % (x, f2b(rng.choice([0.5, 1.0, 0.75]))))
@@ -104,7 +134,7 @@ def gen_C15(rng, tier):
             vals = [rng.choice([0.0, 1.0, -1.0, 5.0, -5.0]) if rng.random() < 0.5 else rng.uniform(-3, 3) for _ in range(n)]
         x0 = p.tensor(shape, vals, tracked=True)
         depth = rng.randint(0, 3)
-        x = upstream(p, rng, x0, depth)
+        x = upstream(p, rng, x0, depth, shape)
         y = p.bind('fwd %s %s' % (a, x))
         # (a skip connection around the activation: its input is also consumed, directly, by what consumes its output)
         finish(p, y, shape, rng, [x0, x], skip=x, skip_exact=(kind in ('relu', 'leaky')))
@@ -112,7 +142,7 @@ def gen_C15(rng, tier):
             # second and third round through the SAME activation object, same input shape
             for rnd in range(rng.randint(1, 2)):
                 xb = p.tensor(shape, [v + 0.25 * (rnd + 1) for v in vals], tracked=True)
-                xb2 = upstream(p, rng, xb, rng.randint(0, 1))
+                xb2 = upstream(p, rng, xb, rng.randint(0, 1), shape)
                 yb = p.bind('fwd %s %s' % (a, xb2))
                 finish(p, yb, shape, rng, [xb, xb2])
             p.tag('object-reused')
@@ -263,7 +293,7 @@ def gen_C13(rng, tier):
             p.tag('non-finite-earlier-call')
         depth = rng.randint(0, 3)
         tp0 = p.tensor(shape, yp, tracked=True)
-        tp = upstream(p, rng, tp0, depth)
+        tp = upstream(p, rng, tp0, depth, shape)
         tt = p.tensor(shape, yt, tracked=rng.random() < 0.3)
         l = p.bind('loss %s %s %s' % (j, tp, tt))
         p.add('bp %s' % l)
@@ -272,7 +302,7 @@ def gen_C13(rng, tier):
             # further rounds with the SAME loss object and the same batch shape
             for rnd in range(rng.randint(1, 2)):
                 q0 = p.tensor(shape, [min(0.95, max(0.05, v * 0.9 + 0.03)) if kind != 'mse' else v + 0.5 for v in yp], tracked=True)
-                q = upstream(p, rng, q0, rng.randint(0, 1))
+                q = upstream(p, rng, q0, rng.randint(0, 1), shape)
                 l2 = p.bind('loss %s %s %s' % (j, q, tt)); p.add('obs %s' % l2)
                 p.add('bp %s' % l2); p.add('obs %s' % q); p.add('obs %s' % q0)
             p.tag('object-reused')
@@ -511,10 +541,14 @@ def gen_C11(rng, tier):
         o = p.bind('sgd %s' % lr, 'o')
         x = p.tensor([batch, hidden[4] if hidden else fi],
                      [rng.uniform(0.1, 1) if dead else rng.uniform(-1, 1) for _ in range(batch * (hidden[4] if hidden else fi))])
+        # (sometimes the target is itself a tracked tensor: the loss must leave the caller's tensors as they are)
+        tgt_tracked = rng.random() < 0.3
         if lossk == 'ce':
-            tgt = p.tensor([batch, fo], [rng.choice([0.0, 1.0]) for _ in range(batch * fo)])
+            tgt = p.tensor([batch, fo], [rng.choice([0.0, 1.0]) for _ in range(batch * fo)], tracked=tgt_tracked)
         else:
-            tgt = p.tensor([batch], [rng.choice([0.0, 1.0]) if lossk == 'bce' else rng.uniform(-1, 1) for _ in range(batch)])
+            tgt = p.tensor([batch], [rng.choice([0.0, 1.0]) if lossk == 'bce' else rng.uniform(-1, 1) for _ in range(batch)],
+                           tracked=tgt_tracked)
+        if tgt_tracked: p.tag('tracked-target')
         steps = rng.randint(1, 6 if tier == 'quick' else 10)
         skip_reset_at = rng.randrange(steps) if rng.random() < (0.7 if dead else 0.25) else None
         params = [pw, pb] + ([hidden[1], hidden[2]] if hidden else [])
@@ -530,7 +564,11 @@ def gen_C11(rng, tier):
                 y = p.bind('squeeze %s 1' % y)
             l = p.bind('loss %s %s %s' % (j, y, tgt))
             p.add('obs %s' % l)
+            if tgt_tracked: p.add('obs %s' % tgt)
             p.add('bp %s' % l)
+            if tgt_tracked:
+                p.add('obs %s' % tgt)
+                p.add('reset %s 1' % tgt)
             for q in params:
                 p.add('upd %s %s' % (o, q))
                 t = p.bind('deref %s' % q)
